@@ -376,6 +376,8 @@ type schemaInfo struct {
 	msgs  []protoreflect.MessageDescriptor
 	text  string // protocol form
 	nflds int
+	// group-kind fields whose TextName() is neither the field name nor an unshadowed name that lower-cases to it
+	wfBroken []string
 }
 
 var schemaCache = map[protoreflect.FullName]*schemaInfo{}
@@ -411,13 +413,19 @@ func flatten(md protoreflect.MessageDescriptor) *schemaInfo {
 		fs := m.Fields()
 		for j := 0; j < fs.Len(); j++ {
 			fd := fs.Get(j)
-			msgName, tgt := "-", "n"
+			tgt := "n"
 			if mm := fd.Message(); mm != nil {
-				msgName = hx(string(mm.Name()))
 				tgt = fmt.Sprint(idx[mm.FullName()])
 			}
 			toks = append(toks, fmt.Sprintf("%s:%s:%s:%s:%s:%s", hx(string(fd.Name())),
-				b01(fd.Kind() == protoreflect.GroupKind), msgName, tgt, b01(fd.IsList()), b01(fd.IsMap())))
+				b01(fd.Kind() == protoreflect.GroupKind), hx(fd.TextName()), tgt, b01(fd.IsList()), b01(fd.IsMap())))
+			if fd.Kind() == protoreflect.GroupKind {
+				// hypothesis TextNameWF of C44.every_field_selectable
+				tn, n := fd.TextName(), string(fd.Name())
+				if !(tn == n || (n == strings.ToLower(tn) && fs.ByName(protoreflect.Name(tn)) == nil)) {
+					s.wfBroken = append(s.wfBroken, string(fd.FullName()))
+				}
+			}
 			s.nflds++
 		}
 		groups = append(groups, strings.Join(toks, " "))
@@ -454,39 +462,6 @@ func refValid(md protoreflect.MessageDescriptor, path string) bool {
 	return true
 }
 
-// touchesPlainDelimited classifies a validity disagreement: some component of the path is the name
-// (or the message type name) of a field with Kind()==GroupKind that is not group-like, i.e. an
-// editions field with DELIMITED encoding whose text name is its field name.
-func touchesPlainDelimited(md protoreflect.MessageDescriptor, path string) bool {
-	cur := md
-	for _, comp := range strings.Split(path, ".") {
-		if cur == nil {
-			return false
-		}
-		var next protoreflect.FieldDescriptor
-		fs := cur.Fields()
-		for j := 0; j < fs.Len(); j++ {
-			fd := fs.Get(j)
-			hit := string(fd.Name()) == comp || (fd.Message() != nil && string(fd.Message().Name()) == comp)
-			if hit && fd.Kind() == protoreflect.GroupKind && fd.TextName() == string(fd.Name()) {
-				return true
-			}
-			if hit && next == nil {
-				next = fd
-			}
-		}
-		if next == nil {
-			return false
-		}
-		cur = next.Message()
-	}
-	return false
-}
-
-const sigDelimited = "delimited-field-unnameable"
-
-var knownReported int
-
 func newMsg(md protoreflect.MessageDescriptor) proto.Message {
 	if mt, err := protoregistry.GlobalTypes.FindMessageByName(md.FullName()); err == nil {
 		return mt.New().Interface()
@@ -511,6 +486,7 @@ func evalValid(c *C, cs Case) bool {
 	}
 	m := newMsg(md)
 	si := flatten(md)
+	c.Check(len(si.wfBroken) == 0, fmt.Sprintf("descriptor assumption TextNameWF fails for %v", si.wfBroken), mkCase("valid", cs.Msg, nil), "")
 	paths := unhxs(cs.Masks[0])
 	got := make([]byte, len(paths))
 	ok, pan := withTimeout(callTimeout, func() {
@@ -526,21 +502,7 @@ func evalValid(c *C, cs Case) bool {
 			c.Check((&fieldmaskpb.FieldMask{Paths: []string{p}}).IsValid(m) == v, "IsValid != (New err == nil)", one, "")
 			c.Check((fieldmaskpb.VerifNumValidPaths(m, []string{p}) == 1) == v, "numValidPaths != (New err == nil)", one, "")
 			want := refValid(md, p)
-			if v != want {
-				sig := ""
-				if touchesPlainDelimited(md, p) {
-					sig = sigDelimited
-				}
-				if sig != "" {
-					// a known-finding signature is reported a few times only, so that it cannot exhaust
-					// the failure budget (c.Failed) and cut the exploration short
-					c.Hist("known:" + sig)
-					knownReported++
-				}
-				if sig == "" || knownReported <= 3 {
-					c.Check(false, fmt.Sprintf("New accepts=%v but the path names a field reachable through singular message fields=%v", v, want), one, sig)
-				}
-			}
+			c.Check(v == want, fmt.Sprintf("New accepts=%v but the path names a field reachable through singular message fields=%v", v, want), one, "")
 			c.Case("v|"+cs.Msg+"|"+hx(p), v)
 			if v {
 				c.Hist(fmt.Sprintf("valid:accepted:depth%d", strings.Count(p, ".")+1))
@@ -837,7 +799,7 @@ func runC44(c *C) {
 		}
 	}
 
-	// 0b. the known finding's witness and its neighbours, on every run
+	// 0b. regression corpus: the witness of the finding fixed in /repo 9230271 and its neighbours, on every run
 	for _, p := range []string{"not_group_like_delimited", "not_group_like_delimited.a", "OptionalGroup", "OptionalGroup.a", "optionalgroup"} {
 		if !evalCase(c, mkCase("valid", "goproto.proto.testeditions.TestAllTypes", []string{p})) {
 			return
